@@ -14,6 +14,7 @@ from .tokens import Tokens
 HTML_FEATURES = {
     "trailing-ampersand-text": "the markup ends in running text, without closing tags, whose last word holds a bare '&' (twin: the word 'and')",
     "empty-table": "a table whose cells are all empty between two filled tables (twin: its first cell is filled)",
+    "title-row-colspan": "a table whose first row is one cell spanning the three columns of the rows below (twin: three cells)",
     "nested-table": "a table inside a td (twin: the inner table after the outer one)",
     "nested-table-deep": "a table in a cell of a table in a cell of a table (twin: the same three tables with one level of nesting)",
     "cell-two-paragraphs": "<td><p>A</p><p>B</p></td> (twin: <td>A B</td>)",
@@ -26,6 +27,7 @@ EPUB_FEATURES = {
     "href-plus": "a chapter file whose name contains '+' (twin: plain name)",
     "href-percent-encoded": "a chapter file whose name contains a blank and a non-ASCII letter, percent-encoded in the manifest href (twin: plain name)",
     "empty-table": "a table whose cells are all empty between two filled tables (twin: its first cell is filled)",
+    "title-row-colspan": "a table whose first row is one cell spanning the three columns of the rows below (twin: three cells)",
     "nested-table": "a table inside a td (twin: sequential tables)",
     "nested-table-deep": "a table in a cell of a table in a cell of a table (twin: the same three tables with one level of nesting)",
     "non-xhtml-spine-item": "an image item listed in the spine between two chapters (twin: not in the spine)",
@@ -139,6 +141,18 @@ def _body(rng, tk: Tokens, exp: Expect, unit: int, feature, twin, xhtml: bool, t
                     exp.nested_tables = 2
                     exp.tables_claimed = False
                     out.append(o)
+            elif feature == "title-row-colspan":
+                # a ragged table: one title cell spanning the columns of the body rows below (twin: the title row has one cell per column)
+                cols = 3
+                title = cellw(1, 2)
+                grid = [[{"toks": title}] if not twin else [{"toks": title}] + [{"empty": True}] * (cols - 1)]
+                trs = [f'<tr><th colspan="{cols}">{" ".join(title)}</th></tr>' if not twin else f'<tr><th>{" ".join(title)}</th>' + "<th></th>" * (cols - 1) + "</tr>"]
+                for _ in range(3):
+                    row = [cellw(1, 1) for _ in range(cols)]
+                    grid.append([{"toks": t} for t in row])
+                    trs.append("<tr>" + "".join(f"<td>{' '.join(t)}</td>" for t in row) + "</tr>")
+                out.append(f"<table><tbody>{''.join(trs)}</tbody></table>")
+                exp.tables.append({"grid": grid, "unit": unit + 1})
             elif feature == "empty-table":
                 for k, bl in enumerate((None, "all-but-first" if twin else "all", None)):
                     xml, g = table(2, 2 + (k == 1), blank=bl)
@@ -246,7 +260,7 @@ def build_epub(seed, feature=None, twin=False):
         elif empty:
             body = "<p> </p>"
         else:
-            body = _body(rng, tk, exp, c, feature if (c == fch and feature in ("nested-table", "nested-table-deep", "empty-table")) else None, twin, xhtml=True, tables_in_text=False)
+            body = _body(rng, tk, exp, c, feature if (c == fch and feature in ("nested-table", "nested-table-deep", "empty-table", "title-row-colspan")) else None, twin, xhtml=True, tables_in_text=False)
         ttl = exp.ignore(tk.new("t"))
         # chapter file names: plain, with '+', or with a blank (written percent-encoded in the manifest, as an IRI reference must be)
         style = "plain" if feature not in (None, "href-plus", "href-percent-encoded") else fname_rng.choice(["plain"] * 5 + ["plus"] * 2)
@@ -261,9 +275,12 @@ def build_epub(seed, feature=None, twin=False):
         if rng.random() < 0.4:
             n_img += 1
             im = _rand_image(rng, n_img)
-            name = f"images/img{n_img}{im['ext']}"
+            # picture file names: plain, or with characters that must be percent-encoded in the manifest href ('#', '%', blank)
+            istyle = fname_rng.choice(["plain"] * 4 + ["hash", "percent"])
+            base, enc = {"plain": (f"img{n_img}", f"img{n_img}"), "hash": (f"fig#{n_img}", f"fig%23{n_img}"), "percent": (f"100% of {n_img}", f"100%25%20of%20{n_img}")}[istyle]
+            name = f"images/{base}{im['ext']}"
             files["OEBPS/" + name] = im["data"]
-            manifest.append(f'<item id="img{n_img}" href="{name}" media-type="{im["ctype"]}"/>')
+            manifest.append(f'<item id="img{n_img}" href="images/{enc}{im["ext"]}" media-type="{im["ctype"]}"/>')
             exp.images.append({"sha": im["sha"], "ctype": im["ctype"], "w": None, "h": None, "unit": None})
             if feature == "non-xhtml-spine-item" and c == fch and not twin:
                 spine.append(f'<itemref idref="img{n_img}"/>')
